@@ -84,7 +84,8 @@ def contents(t, is_set):
 def call(f, *a):
     """-> (result, exception class name or None)"""
     try:
-        return f(*a), None
+        with keys_mod.live():
+            return f(*a), None
     except Exception as e:      # noqa: any exception class is an observation compared with the model's
         return None, type(e).__name__
 
@@ -264,24 +265,29 @@ def set_op(t, m, group, op, kx, ky, one=False):
         other = [kx] if ((op == 3 and keq(kx, ky)) or one) else [kx, ky]
         if one:
             ky = kx
+        # the model is advanced first, so that it holds the completed change even
+        # when the real call is interrupted by an exception (C14, C17)
         if op == 0:
-            t |= other
             m.set(kx, None)
             m.set(ky, None)
         elif op == 1:
-            t &= other
             m.items = [i for i in m.items if keq(i[0], kx) or keq(i[0], ky)]
         elif op == 2:
-            t -= other
             m.delete(kx)
             m.delete(ky)
         else:
-            t ^= other
             for k in ([kx] if keq(kx, ky) else [kx, ky]):
                 if not m.delete(k):
                     m.set(k, None)
-            if keq(kx, ky):
-                pass
+        with keys_mod.live():
+            if op == 0:
+                t |= other
+            elif op == 1:
+                t &= other
+            elif op == 2:
+                t -= other
+            else:
+                t ^= other
         got = ge = want = we = None
     return got, ge, want, we, loose
 
